@@ -181,6 +181,8 @@ def build_case(s, d, dipL, quick):
 
 
 def run(ctx):
+    if ctx.replay:
+        return hp.replay(ctx, "Check_C12")
     quick = ctx.tier == "quick"
     rng = ctx.rng
     ctx.rule = ("(connected interstitial network in a random orientation, dyadic energies, site prefactors that DIFFER "
@@ -194,14 +196,14 @@ def run(ctx):
         for ori in range(norient):
             s = hp.interstitial(name, chem, shell, rng)
             dim = s.crys.dim
-            label = "%s|chem%d|shell%d" % (name, chem, shell)
+            label = "%s|chem%d|shell%d" % (name, chem, s.shell)
             for rep in range(nrep):
                 hi = (2, 3, 6)[rep % 3]
                 d = calc.interstitial_data(s, rng, 0, hi)
                 # inequivalent site types get DIFFERENT prefactors (levels are a random injective choice)
                 d["preL"] = rng.sample(range(-2, max(3, s.Nsite)), s.Nsite)
                 dipL = [hp.int_dipole(rng, dim) for _ in range(s.Nsite)]
-                payload = {"world": name, "chem": chem, "shell": shell, "data": d, "lattice": s.crys.lattice.tolist(),
+                payload = {"world": name, "chem": chem, "shell": s.shell, "data": d, "lattice": s.crys.lattice.tolist(),
                            "site_dipoles_lattice": [P.tolist() for P in dipL]}
                 try:
                     out = build_case(s, d, dipL, quick)
